@@ -44,14 +44,35 @@ def run(tier, seed):
     for p in panics:
         v.violation("fft/panic/" + p["what"], "a transform panics on an admissible configuration %s: %s" % (p["cfg"], p["what"]), p)
 
+    # sizes beyond the toy field's two-adicity: sparse polynomials over the real fields, Trace_FFTBig.tla (BigNat exponentiation)
+    big = [("f64", "15,16"), ("f64", "14,17"), ("f128", "16"), ("f62", "16")] if tier == "quick" else [
+        ("f64", "14,15"), ("f64", "16"), ("f64", "17"), ("f64", "18"), ("f128", "14,15"), ("f128", "16,17"), ("f62", "14,15"), ("f62", "16,17")]
+    big_events = 0
+    for k, (fld, logs) in enumerate(big):
+        tp = os.path.join(wd, "big_%s_%d.ndjson" % (fld, k))
+        rc, out, err = vlib.run_harness(exe, ["fftbig", "--field", fld, "--logs", logs, "--out", tp, "--seed", str(seed + k),
+                                              "--samples", "6" if tier == "quick" else "18"], timeout=1800)
+        if rc != 0:
+            raise vlib.ToolError("fftbig harness rc=%s: %s" % (rc, err[-400:]))
+        panics += [dict(p, big=True) for p in json.loads(out)["panics"]]
+        big_events += sum(1 for _ in open(tp))
+        jobs.append(tp)
+    for p in panics:
+        if p.get("big"):
+            v.violation("fft/panic/" + p["what"], "a transform panics on an admissible configuration %s: %s" % (p["cfg"], p["what"]), p)
+
     def validate(tp):
+        base = os.path.basename(tp)
+        if base.startswith("big_"):
+            fld = base.split("_")[1]
+            return tp, vlib.tlc_validate("Trace_FFTBig", "Trace_FFTBig_" + fld, tp, tag="Trace_FFTBig_" + base, timeout=3300, xmx="4g")
         return tp, vlib.tlc_validate("Trace_FFT", "Trace_FFT", tp, tag="Trace_FFT_" + os.path.basename(tp), timeout=3300, xmx="4g")
 
     states = r.distinct
     trans = r.generated
     accepted = 0
     sample = []
-    for tp, rt in vlib.parallel(validate, jobs, max_workers=8):
+    for tp, rt in vlib.parallel(validate, jobs, max_workers=12):
         states += rt.distinct
         trans += rt.generated
         if rt.ok:
@@ -63,24 +84,28 @@ def run(tier, seed):
         recs = open(tp).read().splitlines()
         ev = json.loads(recs[line - 1]) if 0 < line <= len(recs) else {}
         small = {k: (x if not isinstance(x, list) or len(x) <= 16 else x[:16] + ["..."]) for k, x in ev.items() if k != "polys"}
+        if ev.get("logn"):
+            ev = dict(ev, n="2^%s over %s" % (ev["logn"], ev.get("field")), blowup="2^%s" % (ev.get("logN", ev["logn"]) - ev["logn"]))
+            small = {k: x for k, x in ev.items() if k not in ("samples", "nonzero")}
         v.violation("fft/%s/wrong-values" % ev.get("fn", "?"),
                     "%s (n=%s, blowup=%s, offset=%s, %s columns) does not return the values of direct evaluation at offset*w^i / the interpolating polynomial / the true degree" % (
                         ev.get("fn"), ev.get("n"), ev.get("blowup"), ev.get("offset"), ev.get("cols", 1)), {"trace": tp, "line": line, "event": small})
     if jobs:
         first = json.loads(open(jobs[0]).readline())
         sample = [{k: (x if not isinstance(x, list) or len(x) <= 8 else x[:8] + ["..."]) for k, x in first.items()}]
-    log("[trace] %d configurations, %d transform events, %d/%d shards accepted" % (len(cfgs), events, accepted, len(jobs)))
+    log("[trace] %d configurations, %d transform events + %d events of transforms of 2^14..2^18 elements, %d/%d shards accepted" % (len(cfgs), events, big_events, accepted, len(jobs)))
     rc = v.finish()
     vlib.write_evidence(PID, tier, seed, "model_checking", {
         "states": states, "transitions": trans, "traces_validated_against_impl": accepted,
-        "samples": sample + cfgs[:2], "evaluations": events, "distinct_nontrivial": len(cfgs),
+        "samples": sample + cfgs[:2], "evaluations": events + big_events, "big_transform_events": big_events, "big_transform_shards": big, "distinct_nontrivial": len(cfgs),
         "rule": "configurations of Gen_FFT.tla (vector: log size 1..%d x blowup x offset class; matrix: 1..255 columns x sizes x blowups); random / low-degree / constant "
-                "coefficient data; outputs recomputed at all positions up to %d outputs, at 256 seeded positions beyond" % (9 if tier == "quick" else 11, 512 if tier == "quick" else 4096),
+                "coefficient data; outputs recomputed at all positions up to %d outputs, at 256 seeded positions beyond; transforms of 2^14..2^%d elements of sparse polynomials over f62/f64/f128 "
+                "recomputed at seeded output positions by modular exponentiation (Trace_FFTBig)" % (9 if tier == "quick" else 11, 512 if tier == "quick" else 4096, 17 if tier == "quick" else 18),
         "exhaustive": False, "shards_accepted": accepted,
         "known_finding_occurrences": v.n_known, "new_violations": v.n_new,
     }, time.time() - t0, violations=v.n_new,
-        assumptions=["the generic transform code is exercised over ToyField (p = 40961, two-adicity 13); the three real fields and their extensions run the same generic "
-                     "code, their arithmetic is covered by C07/C08", "the LDE matrix variants require a blowup of at least 2"])
+        assumptions=["dense polynomials of every size up to 2^11 run over ToyField (p = 40961, two-adicity 13); sizes 2^14..2^18 run over the real fields with sparse polynomials "
+                     "and sampled output positions; the fields' own arithmetic is covered by C07/C08", "the LDE matrix variants require a blowup of at least 2"])
     return rc
 
 
